@@ -46,6 +46,22 @@ def address_fields_in(d, ix):
     return out
 
 
+PARTIAL = (r"::(skip|take|skip_while|take_while|step_by|last|first|nth|filter|filter_map|rev|zip|get|get_mut|get_unchecked|split_last|split_first|split_at|split_off|"
+           r"chunks|chunks_exact|windows|rchunks|truncate|drain|pop|remove|swap_remove|retain|dedup|first_chunk|last_chunk|split_at_checked|max|min|find|position)$")
+
+
+def whole_collection(recv):
+    """the iterated collection is all of the field: no adapter that drops elements and no sub-slice (`v[..n]`, `v[1..]`) between the field and the test"""
+    for c2 in core.desc_calls(recv):
+        if core.re.search(PARTIAL, c2[1]):
+            return False
+        if core.re.search(r"Index(Mut)?<[^>]*>>?::index(_mut)?$", c2[1]):
+            ix_ = c2[2][1] if len(c2[2]) > 1 else None
+            if not (isinstance(ix_, tuple) and ix_[0] == "variant" and ix_[2] == "RangeFull"):
+                return False
+    return True
+
+
 def membership_facts(prog, body, ix):
     """For every bool switch whose condition is a blacklist membership test (direct, or an iterator
     `any` whose closure performs one): block -> set of Address fields tested."""
@@ -76,7 +92,7 @@ def membership_facts(prog, body, ix):
                         recv_ = describe(prog, body, ct["args"][0])
                         fields |= address_fields_in(recv_, ix)
                         # every element of the collection is tested (no skip / take / last / rev in front of `any`)
-                        if not [c2 for c2 in core.desc_calls(recv_) if core.re.search(r"::(skip|take|skip_while|take_while|step_by|last|first|nth|filter|rev|zip)$", c2[1])]:
+                        if whole_collection(recv_):
                             fields.add("chain")
         if found:
             out[s] = fields
@@ -112,7 +128,7 @@ def loop_membership(prog, body, ix, mem):
         if tests:
             # every cycle of the loop passes one of the tests
             if core.must_pass(body, [nb], [nb], through_nodes=tests) is None:
-                whole = not [c2 for c2 in core.desc_calls(recv) if core.re.search(r"::(skip|take|skip_while|take_while|step_by|last|first|nth|filter|rev|zip)$", c2[1])]
+                whole = whole_collection(recv)
                 for e in some_edges(prog, body, nb, "None"):
                     out[e[0]] = set(fields) | ({"chain"} if whole else set())
     return out
